@@ -1118,11 +1118,11 @@ class TT():
             torchtt.TT/torch.tensor: the result.
         """
 
-        if index != None and isinstance(index, int):
+        if index != None and isinstance(index, (int, np.integer)):
             index = [index]
         if not isinstance(index, list) and index != None:
             raise InvalidArguments('Invalid index.')
-        if index != None and any((not isinstance(i, int)) or i < 0 or i >= len(self.__N) for i in index):
+        if index != None and any((not isinstance(i, (int, np.integer))) or i < 0 or i >= len(self.__N) for i in index):
             raise InvalidArguments('Invalid index.')
 
         if index == None:
@@ -1651,7 +1651,7 @@ class TT():
                 # if self.__is_ttm else tn.einsum('ijk,lj->ilk',cores_new[mode[i]],factor_matrices[i])
                 cores_new[mode[i]] = tn.einsum(
                     'ijk,lj->ilk', cores_new[mode[i]], factor_matrices[i])
-        elif isinstance(mode, int) and tn.is_tensor(factor_matrices):
+        elif isinstance(mode, (int, np.integer)) and tn.is_tensor(factor_matrices):
             cores_new = [c.clone() for c in self.cores]
             if cores_new[mode].shape[1] != factor_matrices.shape[1]:
                 raise ShapeMismatch(
